@@ -44,8 +44,8 @@ pub fn cfg_for(profile: &str, thorough: bool) -> GenCfg {
     };
     match profile {
         "C01" => GenCfg { profile: "C01", ..base },
-        "C02" => GenCfg { profile: "C02", close: true, ..base },
-        "C03" => GenCfg { profile: "C03", ..base },
+        "C02" => GenCfg { profile: "C02", close: true, resize: true, ..base },
+        "C03" => GenCfg { profile: "C03", resize: true, close: true, ..base },
         "C04" => GenCfg { profile: "C04", retain: false, take: false, ..base },
         "C06" => GenCfg { profile: "C06", close: true, resize: true, drop_handles: true, ..base },
         "C07" => GenCfg { profile: "C07", resize: true, ..base },
